@@ -4,6 +4,7 @@ CONSTANTS
   NUp = 2
   NDown = 2
   MaxFaults = 4
+  MaxDrops = 1
 SPECIFICATION GenSpec
 INVARIANTS TypeOK PrefixDelivered OnlyOwnSegments OneAcceptPerSession OneCurrent NeverDead
 CHECK_DEADLOCK FALSE
